@@ -1,105 +1,185 @@
-(* The structural invariant is preserved by every op of the generated domain (op_ok). *)
-From AV Require Import Base Machine ScopeFrames TreeInv.
+(* Every op of the generated domain (op_ok) preserves the structural invariant (Tree, Ctl) and the
+   delivery invariant I4 (DInv: a cancelled hosted scope that a live task reaches has its delivery scheduled). *)
+From AV Require Import Base Machine ScopeFrames DeliverInv TreeInv DeliverAlive.
 
-(* ---------------- neutral steps: same tree, only the listed tasks' records change, no new task-done callback *)
-Definition nstep (l : list tid) (a b : st) : Prop := treq a b /\ tcb l a b /\ rq_td a b.
+(* ---------------- neutral steps: same tree, only the listed tasks' records change, no new task-done callback,
+   the delivery invariant is carried along *)
+Definition nstep (l : list tid) (a b : st) : Prop :=
+  treq a b /\ tcb l a b /\ rq_td a b /\ (TreeL a -> DInv a -> DInv b).
 
 Lemma ns_refl l a : nstep l a a.
-Proof. split; [apply treq_refl|split; [apply tcb_refl|apply rq_td_refl]]. Qed.
+Proof. split; [apply treq_refl|split; [apply tcb_refl|split; [apply rq_td_refl|auto]]]. Qed.
 
 Lemma ns_trans l a b c : nstep l a b -> nstep l b c -> nstep l a c.
 Proof.
-  intros [A1 [A2 A3]] [B1 [B2 B3]].
-  split; [eapply treq_trans; eauto|split; [eapply tcb_trans; eauto|eapply rq_td_trans; eauto]].
+  intros [A1 [A2 [A3 A4]]] [B1 [B2 [B3 B4]]].
+  split; [eapply treq_trans; eauto|split; [eapply tcb_trans; eauto|split; [eapply rq_td_trans; eauto|]]].
+  intros T I. apply B4; [eapply TreeL_treq; eauto|auto].
 Qed.
 
-Lemma ns_kframe l a b : kframe a b -> nstep l a b.
-Proof. intros K. split; [now apply kframe_treq|split; [now apply tcb_kframe|now apply rq_td_kframe]]. Qed.
-
-Lemma ns_same l a b : treq a b -> tasks b = tasks a -> ready b = ready a -> nstep l a b.
-Proof. intros K E1 E2. split; [exact K|split; [now apply tcb_same_tasks|now apply rq_td_same]]. Qed.
-
-Lemma ns_upd_task l s t g : In t l -> (forall k, tk_tree (g k) = tk_tree k) -> nstep l s (upd_task s t g).
+Lemma ns_dq l a b : treq a b -> tcb l a b -> rq_td a b -> dq a b -> nstep l a b.
 Proof.
-  intros Hin Hg. split; [now apply treq_upd_task|split; [now apply tcb_upd_task|apply rq_td_same; reflexivity]].
+  intros K1 K2 K3 Q. split; [exact K1|split; [exact K2|split; [exact K3|]]].
+  intros _ I. eapply DInv_dq; eauto.
 Qed.
 
-Lemma ns_upd_scope l s c g : (forall k, sc_tree (g k) = sc_tree k) -> nstep l s (upd_scope s c g).
-Proof. intros Hg. apply ns_same; [now apply treq_upd_scope|reflexivity|reflexivity]. Qed.
+Lemma ns_kdq l a b : kframe a b -> scopes b = scopes a -> nstep l a b.
+Proof.
+  intros K E. apply ns_dq; [now apply kframe_treq|now apply tcb_kframe|now apply rq_td_kframe|now apply dq_of_kframe].
+Qed.
+
+Lemma ns_fut_complete l s f v : nstep l s (fut_complete s f v).
+Proof. apply ns_kdq; [apply kframe_fut_complete|apply fut_complete_scopes]. Qed.
+
+Lemma ns_task_cancel l s t o : nstep l s (task_cancel s t o).
+Proof. apply ns_kdq; [apply kframe_task_cancel|apply task_cancel_scopes]. Qed.
+
+Lemma ns_task_uncancel l s t : nstep l s (task_uncancel s t).
+Proof. apply ns_kdq; [apply kframe_task_uncancel|reflexivity]. Qed.
+
+Lemma ns_restart l s x : nstep l s (restart s x).
+Proof.
+  pose proof (kframe_restart s x) as K.
+  split; [now apply kframe_treq|split; [now apply tcb_kframe|split; [now apply rq_td_kframe|]]].
+  apply D_restart_any.
+Qed.
+
+Lemma ns_same l a b :
+  treq a b -> tasks b = tasks a -> ready b = ready a ->
+  (forall c, sc_view (scopes b c) = sc_view (scopes a c)) -> nstep l a b.
+Proof.
+  intros K E1 E2 E3. apply ns_dq; [exact K|now apply tcb_same_tasks|now apply rq_td_same|].
+  constructor; [exact E3|intros t; now rewrite E1|intros t; now rewrite E1|intros c H; now rewrite E2].
+Qed.
+
+Lemma ns_upd_task l s t g : In t l -> (forall k, tk_tree (g k) = tk_tree k) -> (forall k, k_done (g k) = k_done k) ->
+  nstep l s (upd_task s t g).
+Proof.
+  intros Hin Hg Hd. apply ns_dq; [now apply treq_upd_task|now apply tcb_upd_task|apply rq_td_same; reflexivity|].
+  apply dq_upd_task. intros k. split; [|apply Hd]. pose proof (Hg k) as E. unfold tk_tree in E. now inversion E.
+Qed.
+
+Lemma ns_upd_scope l s c g : (forall k, sc_tree (g k) = sc_tree k) -> (forall k, sc_view (g k) = sc_view k) ->
+  nstep l s (upd_scope s c g).
+Proof.
+  intros Hg Hv. apply ns_same; [now apply treq_upd_scope|reflexivity|reflexivity|].
+  intros x. cbn. unfold upd. destruct (Nat.eqb_spec x c); [subst; apply Hv|reflexivity].
+Qed.
+
+Lemma D_shield_true s c : DInv s -> DInv (upd_scope s c (sc_shield true)).
+Proof.
+  intros [Al Hd]. set (s1 := upd_scope s c (sc_shield true)).
+  assert (Es : forall y, y <> c -> scopes s1 y = scopes s y).
+  { intros y Hy. unfold s1. cbn. unfold upd. destruct (Nat.eqb_spec y c); [contradiction|reflexivity]. }
+  assert (Ec : scopes s1 c = sc_shield true (scopes s c)).
+  { unfold s1. cbn. unfold upd. now rewrite Nat.eqb_refl. }
+  split.
+  - intros A. apply (alive_at_mono s s1 A (Al A)).
+    + destruct (Nat.eq_dec A c) as [->|Hy]; [now rewrite Ec|now rewrite (Es A Hy)].
+    + destruct (Nat.eq_dec A c) as [->|Hy]; [now rewrite Ec|now rewrite (Es A Hy)].
+    + intros [t [D [x [Hc Hv]]]]. exists t. split; [exact D|]. exists x. split; [exact Hc|].
+      apply (vis_mono s s1 A x Hv). intros y p F1 F2 F3.
+      destruct (Nat.eq_dec y c) as [->|Hy]; [rewrite Ec in F1; discriminate|].
+      rewrite (Es y Hy) in *. now repeat split.
+    + destruct (Nat.eq_dec A c) as [->|Hy]; [now rewrite Ec|now rewrite (Es A Hy)].
+  - intros y. destruct (Nat.eq_dec y c) as [->|Hy]; [rewrite Ec|rewrite (Es y Hy)]; apply Hd.
+Qed.
+
+Lemma ns_shield_true l s c : nstep l s (upd_scope s c (sc_shield true)).
+Proof.
+  split; [apply treq_upd_scope; intros k; reflexivity|].
+  split; [apply tcb_same_tasks; reflexivity|]. split; [apply rq_td_same; reflexivity|].
+  intros _. apply D_shield_true.
+Qed.
 
 Lemma ns_upd_group l s c g : (forall k, gr_tree (g k) = gr_tree k) -> nstep l s (upd_group s c g).
-Proof. intros Hg. apply ns_same; [now apply treq_upd_group|reflexivity|reflexivity]. Qed.
+Proof. intros Hg. apply ns_same; [now apply treq_upd_group|reflexivity|reflexivity|reflexivity]. Qed.
 
 Lemma ns_set_running l s v : nstep l s (set_running s v).
-Proof. apply ns_same; [apply treq_set_running|reflexivity|reflexivity]. Qed.
+Proof. apply ns_same; [apply treq_set_running|reflexivity|reflexivity|reflexivity]. Qed.
 
 Lemma ns_begin_act l s t : In t l -> nstep l s (begin_act s t).
 Proof.
-  intros Hin. split; [apply treq_begin_act|split; [now apply tcb_begin_act|apply rq_td_same; reflexivity]].
+  intros Hin. apply ns_dq; [apply treq_begin_act|now apply tcb_begin_act|apply rq_td_same; reflexivity|apply dq_begin_act].
 Qed.
 
 Lemma ns_ret l s t r : In t l -> nstep l s (fst (ret_to_puppet s t r)).
 Proof.
-  intros Hin. split; [apply treq_ret_to_puppet|split; [now apply tcb_ret_to_puppet|apply rq_td_ret_to_puppet]].
+  intros Hin. apply ns_dq; [apply treq_ret_to_puppet|now apply tcb_ret_to_puppet|apply rq_td_ret_to_puppet|
+                            apply dq_ret_to_puppet].
 Qed.
 
 Lemma ns_park l s t : In t l -> nstep l s (park s t).
-Proof. intros Hin. split; [apply treq_park|split; [now apply tcb_park|apply rq_td_park]]. Qed.
+Proof. intros Hin. apply ns_dq; [apply treq_park|now apply tcb_park|apply rq_td_park|apply dq_park]. Qed.
 
 Lemma ns_set_ctl l s t c : In t l -> nstep l s (set_ctl s t c).
-Proof. intros Hin. apply ns_upd_task; [exact Hin|intros k; reflexivity]. Qed.
+Proof. intros Hin. apply ns_upd_task; [exact Hin|intros k; reflexivity|intros k; reflexivity]. Qed.
 
 Lemma ns_bare_yield l s t : nstep l s (bare_yield s t).
 Proof.
-  split; [apply treq_bare_yield|split; [apply tcb_same_tasks; reflexivity|]].
+  apply ns_dq; [apply treq_bare_yield|apply tcb_same_tasks; reflexivity| |apply dq_call_soon].
   apply rq_td_call_soon. intros; discriminate.
 Qed.
 
 Lemma ns_scope_cancel l s c b : nstep l s (scope_cancel s c b).
-Proof. split; [apply treq_scope_cancel|split; [apply tcb_scope_cancel|apply rq_td_scope_cancel]]. Qed.
+Proof.
+  split; [apply treq_scope_cancel|split; [apply tcb_scope_cancel|split; [apply rq_td_scope_cancel|]]].
+  apply D_scope_cancel.
+Qed.
 
 Lemma ns_cancel_timeout l s c : nstep l s (cancel_timeout s c).
-Proof. split; [apply treq_cancel_timeout|split; [apply tcb_cancel_timeout|apply rq_td_cancel_timeout]]. Qed.
+Proof.
+  apply ns_dq; [apply treq_cancel_timeout|apply tcb_cancel_timeout|apply rq_td_cancel_timeout|apply dq_cancel_timeout].
+Qed.
 
 Lemma ns_scope_timeout l s c : nstep l s (scope_timeout s c).
-Proof. split; [apply treq_scope_timeout|split; [apply tcb_scope_timeout|apply rq_td_scope_timeout]]. Qed.
+Proof.
+  split; [apply treq_scope_timeout|split; [apply tcb_scope_timeout|split; [apply rq_td_scope_timeout|]]].
+  apply D_scope_timeout.
+Qed.
 
 Lemma ns_new_fut l s : nstep l s (fst (new_fut s)).
-Proof. apply ns_same; [apply treq_new_fut|reflexivity|reflexivity]. Qed.
+Proof. apply ns_same; [apply treq_new_fut|reflexivity|reflexivity|reflexivity]. Qed.
 
 Lemma ns_call_at l s w x : nstep l s (fst (call_at s w x)).
-Proof. apply ns_same; [apply treq_call_at|reflexivity|reflexivity]. Qed.
+Proof. apply ns_same; [apply treq_call_at|reflexivity|reflexivity|reflexivity]. Qed.
 
 Lemma ns_suspend_on l s t f : In t l -> nstep l s (suspend_on s t f).
-Proof. intros Hin. split; [apply treq_suspend_on|split; [now apply tcb_suspend_on|apply rq_td_suspend_on]]. Qed.
+Proof.
+  intros Hin. apply ns_dq; [apply treq_suspend_on|now apply tcb_suspend_on|apply rq_td_suspend_on|apply dq_suspend_on].
+Qed.
 
 Lemma ns_event_set l s e : nstep l s (event_set s e).
-Proof. split; [apply treq_event_set|split; [apply tcb_event_set|apply rq_td_event_set]]. Qed.
+Proof. apply ns_dq; [apply treq_event_set|apply tcb_event_set|apply rq_td_event_set|apply dq_event_set]. Qed.
 
 Lemma ns_event_wait l s t e : In t l -> nstep l s (fst (event_wait s t e)).
-Proof. intros Hin. split; [apply treq_event_wait|split; [now apply tcb_event_wait|apply rq_td_event_wait]]. Qed.
+Proof.
+  intros Hin. apply ns_dq; [apply treq_event_wait|now apply tcb_event_wait|apply rq_td_event_wait|apply dq_event_wait].
+Qed.
 
 Lemma ns_event_unwait l s e fo : nstep l s (event_unwait s e fo).
 Proof.
-  split; [apply treq_event_unwait|split; [apply tcb_event_unwait|]]. destruct fo; apply rq_td_same; reflexivity.
+  apply ns_dq; [apply treq_event_unwait|apply tcb_event_unwait| |apply dq_event_unwait].
+  destruct fo; apply rq_td_same; reflexivity.
 Qed.
 
 Lemma ns_incoming l s t fo : In t l -> nstep l s (fst (incoming s t fo)).
 Proof.
-  intros Hin. split; [apply treq_incoming|split; [now apply tcb_incoming|apply rq_td_same; reflexivity]].
+  intros Hin. apply ns_dq; [apply treq_incoming|now apply tcb_incoming|apply rq_td_same; reflexivity|apply dq_incoming].
 Qed.
 
 Lemma ns_timer_cancel l s tm : nstep l s (timer_cancel s tm).
 Proof.
-  split; [apply treq_timer_cancel|split; [apply tcb_same_tasks; reflexivity|apply rq_td_timer_cancel]].
+  apply ns_dq; [apply treq_timer_cancel|apply tcb_same_tasks; reflexivity|apply rq_td_timer_cancel|apply dq_timer_cancel].
 Qed.
 
 Lemma ns_tick l s dt : nstep l s (tick s dt).
-Proof. split; [apply treq_tick|split; [apply tcb_same_tasks; reflexivity|apply rq_td_tick]]. Qed.
+Proof. apply ns_dq; [apply treq_tick|apply tcb_same_tasks; reflexivity|apply rq_td_tick|apply dq_tick]. Qed.
 
-Lemma ns_remove_first l s h : nstep l s (set_ready s (remove_first h (ready s))).
+Lemma ns_remove_first l s h : (forall c, h <> HDeliver c) -> nstep l s (set_ready s (remove_first h (ready s))).
 Proof.
-  split; [apply treq_set_ready|split; [apply tcb_same_tasks; reflexivity|apply rq_td_remove_first]].
+  intros Hh. apply ns_dq; [apply treq_set_ready|apply tcb_same_tasks; reflexivity|apply rq_td_remove_first|
+                           now apply dq_remove_first].
 Qed.
 
 Lemma ns_td_tail l s3 k g t : nstep l s3 (td_tail s3 k g t).
@@ -110,7 +190,7 @@ Proof.
              | None => s3 end).
   assert (K4 : nstep l s3 s4).
   { unfold s4. destruct (g_fut (groups s3 g)); [|apply ns_refl].
-    destruct (g_tasks (groups s3 g)); [apply ns_kframe, kframe_fut_complete|apply ns_refl]. }
+    destruct (g_tasks (groups s3 g)); [apply ns_fut_complete|apply ns_refl]. }
   clearbody s4.
   assert (Kx : forall e, nstep l s4 (upd_group s4 g (fun x => gr_excs (g_excs x ++ [(t, e)]) x))).
   { intros e. apply ns_upd_group. intros x; reflexivity. }
@@ -120,38 +200,120 @@ Proof.
   eapply ns_trans; [exact K4|].
   destruct (k_done k) as [[v|e|e]|].
   - destruct (k_startfut k) as [f|]; [|apply ns_refl].
-    destruct (f_st (futs s4 f)); try apply ns_refl. apply ns_kframe, kframe_fut_complete.
+    destruct (f_st (futs s4 f)); try apply ns_refl. apply ns_fut_complete.
   - destruct (k_startfut k) as [f|].
     + destruct (f_st (futs s4 f)).
-      * apply ns_kframe, kframe_fut_complete.
+      * apply ns_fut_complete.
       * destruct (is_cancel e); [apply Kc|]. eapply ns_trans; [apply Kx|apply Kc].
       * destruct (is_cancel e); [apply Kc|]. eapply ns_trans; [apply Kx|apply Kc].
       * destruct (is_cancel e); [apply ns_refl|]. eapply ns_trans; [apply Kx|apply Kc].
     + destruct (is_cancel e); [apply Kc|]. eapply ns_trans; [apply Kx|apply Kc].
   - destruct (k_startfut k) as [f|].
     + destruct (f_st (futs s4 f)).
-      * apply ns_kframe, kframe_fut_complete.
+      * apply ns_fut_complete.
       * destruct (is_cancel e); [apply Kc|]. eapply ns_trans; [apply Kx|apply Kc].
       * destruct (is_cancel e); [apply Kc|]. eapply ns_trans; [apply Kx|apply Kc].
       * destruct (is_cancel e); [apply ns_refl|]. eapply ns_trans; [apply Kx|apply Kc].
     + destruct (is_cancel e); [apply Kc|]. eapply ns_trans; [apply Kx|apply Kc].
   - destruct (k_startfut k) as [f|]; [|apply ns_refl].
-    destruct (f_st (futs s4 f)); try apply ns_refl. apply ns_kframe, kframe_fut_complete.
+    destruct (f_st (futs s4 f)); try apply ns_refl. apply ns_fut_complete.
 Qed.
 
-(* ---------------- Run in single-step form ---------------- *)
+(* ---------------- Run: the structural run of TreeInv plus the delivery invariant ---------------- *)
+Definition Run (l : list tid) (a b : st) : Prop := TreeInv.Run l a b /\ (Tree a -> DInv a -> DInv b).
+
 Lemma run_refl l s : Tree s -> Run l s s.
-Proof. intros T. split; [exact T|split; [apply creq_refl|apply rq_td_refl]]. Qed.
+Proof. intros T. split; [|auto]. split; [exact T|split; [apply creq_refl|apply rq_td_refl]]. Qed.
+
+Lemma run_tree l a b : Run l a b -> Tree b.
+Proof. intros H. apply H. Qed.
 
 Lemma run_trans l a b c : Run l a b -> Run l b c -> Run l a c.
 Proof.
-  intros [_ [Q1 R1]] [T [Q2 R2]]. split; [exact T|split; [eapply creq_trans; eauto|eapply rq_td_trans; eauto]].
+  intros [[Tb [Q1 R1]] D1] [[T [Q2 R2]] D2]. split.
+  - split; [exact T|split; [eapply creq_trans; eauto|eapply rq_td_trans; eauto]].
+  - intros Ta I. apply D2; [exact Tb|now apply D1].
 Qed.
 
 Lemma run_n l a b : Tree a -> nstep l a b -> Run l a b.
-Proof. intros T [K1 [K2 K3]]. eapply run_treq; eauto. now apply run_refl. Qed.
+Proof.
+  intros T [K1 [K2 [K3 K4]]]. split.
+  - eapply run_treq; eauto. split; [exact T|split; [apply creq_refl|apply rq_td_refl]].
+  - intros _. apply K4. now apply Tree_TreeL.
+Qed.
 
-Lemma run_tree l a b : Run l a b -> Tree b.
+Lemma run_lift l s0 s s' :
+  Run l s0 s -> (TreeInv.Run l s0 s -> TreeInv.Run l s0 s') -> (Tree s -> DInv s -> DInv s') -> Run l s0 s'.
+Proof.
+  intros [R D] HR HD. split; [now apply HR|]. intros T0 I0. apply HD; [apply R|now apply D].
+Qed.
+
+Lemma run_new_scope l s0 s d sh : Run l s0 s -> Run l s0 (fst (new_scope s d sh)).
+Proof. intros R. apply (run_lift l s0 s _ R); [apply TreeInv.run_new_scope|apply D_new_scope]. Qed.
+
+Lemma run_enter l s0 s c t :
+  Run l s0 s -> In t l -> alloc_t s t -> k_tdran (tasks s t) = false -> alloc_s s c ->
+  (s_active (scopes s c) = false ->
+   forall t' g, alloc_t s t' -> k_group (tasks s t') = Some g -> k_hscope (tasks s t') = c ->
+     t' = t /\ k_cur (tasks s t) = Some (g_scope (groups s g))) ->
+  (s_active (scopes s c) = false ->
+   forall g, k_group (tasks s t) = Some g -> g_scope (groups s g) <> c) ->
+  Run l s0 (fst (scope_enter s c t)).
+Proof.
+  intros R Hin At Dt Ac Hh Hg. apply (run_lift l s0 s _ R).
+  - intros R0. now apply TreeInv.run_enter.
+  - intros T I. destruct (s_active (scopes s c)) eqn:Ic.
+    + now rewrite (scope_enter_fail s c t Ic).
+    + apply D_enter; auto.
+Qed.
+
+Lemma run_exit l s0 s c t exc :
+  Run l s0 s -> In t l ->
+  (exit_ok s c t ->
+     (forall x, ~ In x (s_children (scopes s c))) /\
+     (forall t', In t' (s_tasks (scopes s c)) -> t' = t) /\
+     (forall g, alloc_g s g -> g_scope (groups s g) = c -> g_tasks (groups s g) = [])) ->
+  Run l s0 (fst (scope_exit s c t exc)).
+Proof.
+  intros R Hin Hside. apply (run_lift l s0 s _ R).
+  - intros R0. now apply TreeInv.run_exit.
+  - intros T I. destruct (exit_ok_dec s c t) as [Hok|Hno].
+    + destruct (Hside Hok) as [NC [NT NG]]. now apply D_exit.
+    + now rewrite (scope_exit_fail s c t exc Hno).
+Qed.
+
+Lemma run_spawn l s0 s g sf :
+  Run l s0 s -> In (ntask s) l -> alloc_g s g -> s_active (scopes s (g_scope (groups s g))) = true ->
+  Run l s0 (fst (spawn_task s g sf)).
+Proof.
+  intros R Hin Ag Ha. apply (run_lift l s0 s _ R).
+  - intros R0. now apply TreeInv.run_spawn.
+  - intros T I. now apply D_spawn.
+Qed.
+
+Lemma run_group_new l s0 s : Run l s0 s -> Run l s0 (gnew_struct s).
+Proof.
+  intros R. apply (run_lift l s0 s _ R); [apply TreeInv.run_group_new|].
+  intros T I. apply (DInv_dq (fst (new_scope s None false))); [now apply D_new_scope|].
+  apply dq_same; [reflexivity|intros t; now split|auto].
+Qed.
+
+Lemma run_new_root l s0 s : Run l s0 s -> In (ntask s) l -> Run l s0 (root_struct s).
+Proof.
+  intros R Hin. apply (run_lift l s0 s _ R); [intros R0; now apply TreeInv.run_new_root|].
+  intros T [Al Hd]. destruct (Tree_fresh_task s (ntask s) T (le_n _)) as [Fc _].
+  assert (Ek : forall x, x <> ntask s -> tasks (root_struct s) x = tasks s x).
+  { intros x Hx. unfold root_struct. cbn. unfold upd. destruct (Nat.eqb_spec x (ntask s)); [contradiction|reflexivity]. }
+  split.
+  - intros A. apply (alive_at_mono s _ A (Al A)); auto.
+    intros [t [D [x [Hc Hv]]]]. destruct (Nat.eq_dec t (ntask s)) as [->|Hne].
+    + exfalso. unfold root_struct in Hc. cbn in Hc. unfold upd in Hc. rewrite Nat.eqb_refl in Hc. discriminate.
+    + rewrite (Ek t Hne) in D, Hc. exists t. split; [exact D|]. exists x. split; [exact Hc|].
+      apply (vis_view s (root_struct s) A x); [intros y; now repeat split|exact Hv].
+  - exact Hd.
+Qed.
+
+Lemma run_struct l a b : Run l a b -> TreeInv.Run l a b.
 Proof. intros H. apply H. Qed.
 
 (* ---------------- the generated domain ---------------- *)
@@ -198,7 +360,11 @@ Fixpoint ops_ok (s : st) (ops : list op) : bool :=
   | o :: r => op_ok s o && ops_ok (fst (step s o)) r
   end.
 
-Definition SInv (s : st) : Prop := Tree s /\ Ctl s.
+Definition SInv (s : st) : Prop := (Tree s /\ Ctl s) /\ DInv s.
+
+Lemma si_tree s : SInv s -> Tree s. Proof. intros H. apply H. Qed.
+Lemma si_ctl s : SInv s -> Ctl s. Proof. intros H. apply H. Qed.
+Lemma si_dinv s : SInv s -> DInv s. Proof. intros H. apply H. Qed.
 
 Lemma idle_spec s t : idle s t = true -> k_ctl (tasks s t) = CIdle /\ alloc_t s t.
 Proof.
@@ -222,7 +388,7 @@ Lemma sinv_actor s t s' :
   (forall c, ctl_scope (k_ctl (tasks s' t)) = Some c -> alloc_s s' c /\ notg s' c) ->
   SInv s'.
 Proof.
-  intros [T C] A N [T' [Q R]] N1 N2 Hck Hsc. split; [exact T'|].
+  intros [[T C] Dv] A N [[T' [Q R]] Dd] N1 N2 Hck Hsc. split; [split; [exact T'|]|now apply Dd].
   apply (Ctl_step [t] s s' C Q). intros t' [<-|[]].
   pose proof (cq_alloc_t _ _ _ Q t A) as A'.
   refine (conj _ (conj _ _)).
@@ -393,7 +559,7 @@ Proof.
   assert (R2 : Run l s (upd_group s1 g (gr_left true))).
   { eapply run_trans; [exact R1|]. apply run_n; [apply R1|]. apply ns_upd_group. intros k; reflexivity. }
   destruct x; cbn [fst]; try exact R2.
-  eapply run_trans; [exact R2|]. apply run_n; [apply R2|]. apply ns_upd_task; [exact Hin|intros k; reflexivity].
+  eapply run_trans; [exact R2|]. apply run_n; [apply R2|]. apply ns_upd_task; [exact Hin|intros k; reflexivity|intros k; reflexivity].
 Qed.
 
 Lemma run_aexit_finish l s t g exc :
@@ -417,7 +583,7 @@ Lemma run_actor_facts s0 s t :
   Ctl s0 -> alloc_t s0 t -> k_ctl (tasks s0 t) <> CDone -> Run [t] s0 s ->
   alloc_t s t /\ k_tdran (tasks s t) = false.
 Proof.
-  intros C A N [_ [Q _]]. split; [exact (cq_alloc_t _ _ _ Q t A)|].
+  intros C A N [[_ [Q _]] _]. split; [exact (cq_alloc_t _ _ _ Q t A)|].
   destruct (cq_ids _ _ _ Q t A) as [_ [_ E]]. rewrite E. now apply not_tdran_of_ctl.
 Qed.
 
@@ -427,7 +593,7 @@ Lemma sinv_wof s0 t s g ws exc :
   SInv (fst (aexit_wait_or_finish s t g ws exc)).
 Proof.
   intros I A N R Hw. pose proof (run_tree _ _ _ R) as T.
-  destruct (run_actor_facts s0 s t (proj2 I) A N R) as [As Ds].
+  destruct (run_actor_facts s0 s t (si_ctl _ I) A N R) as [As Ds].
   assert (Lt : In t [t]) by now left.
   unfold aexit_wait_or_finish. destruct (g_tasks (groups s g)) as [|c0 cs] eqn:Eg.
   - destruct ws as [w|].
@@ -487,7 +653,7 @@ Section PuppetOp.
   Lemma po_Tb : Tree sb. Proof. apply po_Rb. Qed.
   Lemma po_Lt : In t [t]. Proof. now left. Qed.
   Lemma po_facts : alloc_t sb t /\ k_tdran (tasks sb t) = false.
-  Proof. apply (run_actor_facts s sb t (proj2 I) po_A po_N po_Rb). Qed.
+  Proof. apply (run_actor_facts s sb t (si_ctl _ I) po_A po_N po_Rb). Qed.
   Lemma po_waiter : k_waiter (tasks sb t) = None.
   Proof. unfold sb, begin_act. cbn. unfold upd. now rewrite Nat.eqb_refl. Qed.
 
@@ -528,7 +694,7 @@ Section PuppetOp.
       - intros _ t' g A' G E. exfalso. rewrite (tq_group _ _ K) in G. rewrite (tq_hscope _ _ K) in E.
         apply (Nh t' g); assumption.
       - intros _ g G E. rewrite (tq_group _ _ K) in G. rewrite (tq_gscope _ _ K) in E.
-        destruct (tr_kgroup _ (proj1 I) t g po_A G) as [Ag _]. now apply (Ng g Ag). }
+        destruct (tr_kgroup _ (si_tree _ I) t g po_A G) as [Ag _]. now apply (Ng g Ag). }
     destruct (scope_enter sb c t) as [s1 e]. cbn [fst] in R. now apply po_run.
   Qed.
 
@@ -550,7 +716,7 @@ Section PuppetOp.
     destruct (scope_exit sb c t (k_held (tasks sb t))) as [s1 x]. cbn [fst] in R.
     destruct x.
     - assert (R2 : Run [t] sb (upd_task s1 t (tk_held None))).
-      { eapply run_trans; [exact R|]. apply run_n; [apply R|]. apply ns_upd_task; [apply po_Lt|intros k; reflexivity]. }
+      { eapply run_trans; [exact R|]. apply run_n; [apply R|]. apply ns_upd_task; [apply po_Lt|intros k; reflexivity|intros k; reflexivity]. }
       destruct (_ && _); now apply po_run.
     - now apply po_run.
     - now apply po_run.
@@ -562,9 +728,15 @@ Section PuppetOp.
   Lemma po_setshield c b : SInv (fst (puppet_op s t (ASetShield t c b))).
   Proof.
     unfold puppet_op. fold sb. destruct (Bool.eqb _ b); [apply po_simple, ns_refl|].
-    assert (K : nstep [t] sb (upd_scope sb c (sc_shield b))) by (apply ns_upd_scope; intros k; reflexivity).
-    destruct b; apply po_simple; [exact K|].
-    eapply ns_trans; [exact K|]. apply ns_kframe, kframe_restart.
+    apply po_simple.
+    split; [|split; [|split]].
+    - destruct b; [apply treq_upd_scope; intros k; reflexivity|].
+      eapply treq_trans; [apply treq_upd_scope; intros k; reflexivity|apply treq_restart].
+    - destruct b; [apply tcb_same_tasks; reflexivity|].
+      eapply tcb_trans; [apply tcb_same_tasks; reflexivity|apply tcb_kframe, kframe_restart].
+    - destruct b; [apply rq_td_same; reflexivity|].
+      eapply rq_td_trans; [apply rq_td_same; reflexivity|apply rq_td_kframe, kframe_restart].
+    - intros _ Ib. apply (D_set_shield sb c b po_Tb Ib).
   Qed.
 
   Lemma po_setdeadline c d : SInv (fst (puppet_op s t (ASetDeadline t c d))).
@@ -572,7 +744,7 @@ Section PuppetOp.
     unfold puppet_op. fold sb. apply po_simple.
     set (s1 := cancel_timeout (upd_scope sb c (sc_deadline d)) c).
     assert (K : nstep [t] sb s1).
-    { eapply ns_trans; [|apply ns_cancel_timeout]. apply ns_upd_scope. intros k; reflexivity. }
+    { eapply ns_trans; [|apply ns_cancel_timeout]. apply ns_upd_scope; intros k; reflexivity. }
     destruct (_ && _); [|exact K]. eapply ns_trans; [exact K|apply ns_scope_timeout].
   Qed.
 
@@ -598,7 +770,9 @@ Proof.
 Qed.
 
 Lemma run_weaken l l' a b : incl l l' -> Run l a b -> Run l' a b.
-Proof. intros Hi [T [Q R]]. split; [exact T|split; [now apply (creq_weaken l l')|exact R]]. Qed.
+Proof.
+  intros Hi [[T [Q R]] D]. split; [|exact D]. split; [exact T|split; [now apply (creq_weaken l l')|exact R]].
+Qed.
 
 Lemma nstep_weaken l l' a b : incl l l' -> nstep l a b -> nstep l' a b.
 Proof. intros Hi [K1 [K2 K3]]. split; [exact K1|split; [now apply (tcb_weaken l l')|exact K3]]. Qed.
@@ -640,7 +814,7 @@ Lemma sinv_with_child s t sa g sf s' :
   (forall c, ctl_scope (k_ctl (tasks s' t)) = Some c -> alloc_s s' c /\ notg s' c) ->
   SInv s'.
 Proof.
-  intros [T C] A N R Ag Ha K N1 N2 Hck Hsc.
+  intros [[T C] Dv] A N R Ag Ha K N1 N2 Hck Hsc.
   set (tn := ntask sa). set (s2 := fst (spawn_task sa g sf)) in *.
   pose proof (run_tree _ _ _ R) as Ta.
   assert (Asa : alloc_t sa t) by (apply R; exact A).
@@ -651,7 +825,7 @@ Proof.
   assert (R' : Run [t; tn] s s').
   { eapply run_trans; [apply (run_weaken [t] _ _ _ Hi R)|]. eapply run_trans; [exact R2|].
     apply run_n; [apply R2|]. now apply (nstep_weaken [t]). }
-  destruct R' as [T' [Q Rq]]. split; [exact T'|].
+  destruct R' as [[T' [Q Rq]] Dd]. split; [split; [exact T'|]|now apply Dd].
   apply (Ctl_step [t; tn] s s' C Q). intros t' [<-|[<-|[]]].
   - pose proof (cq_alloc_t _ _ _ Q t A) as A'.
     refine (conj _ (conj _ _)).
@@ -744,7 +918,7 @@ Section PuppetOp2.
     assert (R1 : Run [t] s s1).
     { eapply run_trans; [exact Rb|]. apply run_n; [exact Tb|exact K1]. }
     pose proof (run_tree _ _ _ R1) as T1.
-    destruct (run_actor_facts s s1 t (proj2 I) A N R1) as [A1 D1].
+    destruct (run_actor_facts s s1 t (si_ctl _ I) A N R1) as [A1 D1].
     destruct (g_tasks (groups s1 g)) eqn:Eg.
     - unfold new_scope. cbv zeta.
       pose proof (run_enter_fresh [t] s1 t None true T1 Lt A1 D1) as R2.
@@ -799,7 +973,7 @@ Section PuppetOp2.
   Proof.
     unfold puppet_op. fold sb. destruct (k_startfut (tasks sb t)) as [f|].
     - destruct (f_st (futs sb f)); apply (po_simple s t I Hidle); try apply ns_refl.
-      apply ns_kframe, kframe_fut_complete.
+      apply ns_fut_complete.
     - apply (po_simple s t I Hidle). apply ns_refl.
   Qed.
 
@@ -866,24 +1040,24 @@ Section PuppetOp2.
   Lemma po_hold n : SInv (fst (puppet_op s t (AHold t n))).
   Proof.
     unfold puppet_op. fold sb. apply (po_simple s t I Hidle).
-    apply ns_upd_task; [exact Lt|intros k; reflexivity].
+    apply ns_upd_task; [exact Lt|intros k; reflexivity|intros k; reflexivity].
   Qed.
 
   Lemma po_drop : SInv (fst (puppet_op s t (ADrop t))).
   Proof.
     unfold puppet_op. fold sb. apply (po_simple s t I Hidle).
-    apply ns_upd_task; [exact Lt|intros k; reflexivity].
+    apply ns_upd_task; [exact Lt|intros k; reflexivity|intros k; reflexivity].
   Qed.
 
   Lemma po_wrap n : SInv (fst (puppet_op s t (AWrap t n))).
   Proof.
     unfold puppet_op. fold sb. apply (po_simple s t I Hidle).
-    apply ns_upd_task; [exact Lt|intros k; reflexivity].
+    apply ns_upd_task; [exact Lt|intros k; reflexivity|intros k; reflexivity].
   Qed.
 
   Lemma po_uncancel : SInv (fst (puppet_op s t (AUncancel t))).
   Proof.
-    unfold puppet_op. fold sb. apply (po_simple s t I Hidle). apply ns_kframe, kframe_task_uncancel.
+    unfold puppet_op. fold sb. apply (po_simple s t I Hidle). apply ns_task_uncancel.
   Qed.
 
   Lemma po_effdeadline : SInv (fst (puppet_op s t (AEffDeadline t))).
@@ -918,8 +1092,8 @@ Lemma sinv_finish s t s1 o :
   SInv s -> alloc_t s t -> k_ctl (tasks s t) <> CDone -> Run [t] s s1 ->
   (forall x, s_host (scopes s1 x) <> Some t) -> SInv (finish_task s1 t o).
 Proof.
-  intros [T C] A N [T1 [Q R]] Hn. pose proof (treq_finish_task s1 t o) as K.
-  split; [eapply Tree_treq; eauto|].
+  intros [[T C] Dv] A N [[T1 [Q R]] Dd] Hn. pose proof (treq_finish_task s1 t o) as K.
+  split; [split; [eapply Tree_treq; eauto|]|apply D_finish; now apply Dd].
   assert (Q' : creq [t] s (finish_task s1 t o)).
   { eapply creq_trans; [exact Q|]. apply creq_finish. now left. }
   apply (Ctl_step [t] s _ C Q'). intros t' [<-|[]].
@@ -953,7 +1127,7 @@ Proof.
   set (raw := match k_held (tasks sb t) with Some e => OExc e | None => ORet v end).
   set (s1 := upd_task sb t (tk_final (Some raw))).
   assert (K1 : nstep [t] s s1).
-  { eapply ns_trans; [apply ns_begin_act; exact Lt|]. apply ns_upd_task; [exact Lt|intros k; reflexivity]. }
+  { eapply ns_trans; [apply ns_begin_act; exact Lt|]. apply ns_upd_task; [exact Lt|intros k; reflexivity|intros k; reflexivity]. }
   assert (R1 : Run [t] s s1) by (apply run_n; [apply I|exact K1]).
   assert (Eg : k_group (tasks sb t) = k_group (tasks s t)) by apply (tq_group _ _ (treq_begin_act s t)).
   cbn [op_ok] in Hok. rewrite Eg.
@@ -963,10 +1137,10 @@ Proof.
     set (s2 := upd_task s1 t _). set (s3 := event_set s2 (k_hevent (tasks sb t))).
     assert (K3 : nstep [t] s s3).
     { eapply ns_trans; [exact K1|]. eapply ns_trans; [|apply ns_event_set].
-      apply ns_upd_task; [exact Lt|]. intros k. destruct raw; reflexivity. }
+      apply ns_upd_task; [exact Lt| |]; intros k; destruct raw; reflexivity. }
     assert (R3 : Run [t] s s3) by (apply run_n; [apply I|exact K3]).
     pose proof (run_tree _ _ _ R3) as T3. destruct K3 as [Q3 _].
-    destruct (run_actor_facts s s3 t (proj2 I) A N R3) as [A3 D3].
+    destruct (run_actor_facts s s3 t (si_ctl _ I) A N R3) as [A3 D3].
     assert (Eh : k_hscope (tasks sb t) = k_hscope (tasks s3 t)).
     { rewrite (tq_hscope _ _ Q3). apply (tq_hscope _ _ (treq_begin_act s t)). }
     rewrite Eh. set (hs := k_hscope (tasks s3 t)).
@@ -982,7 +1156,7 @@ Proof.
     assert (Hn : forall y, s_host (scopes s4 y) <> Some t).
     { pose proof (run_tree _ _ _ R4) as T4.
       assert (R04 : Run [t] s s4) by (eapply run_trans; eauto).
-      destruct (run_actor_facts s s4 t (proj2 I) A N R04) as [A4 D4].
+      destruct (run_actor_facts s s4 t (si_ctl _ I) A N R04) as [A4 D4].
       apply (hosts_nothing_of_base s4 t T4 A4 D4).
       rewrite (tq_cur _ _ K4), (tx_cur s3 hs t T3 Hx), Nat.eqb_refl.
       rewrite (tq_base _ _ K4), (tx_base s3 hs t T3 Hx). unfold base. rewrite G3.
@@ -991,7 +1165,7 @@ Proof.
     destruct x; cbn [fst]; now apply (sinv_finish s t s4).
   - (* root task *)
     cbn [fst]. apply (sinv_finish s t s1 raw I A N R1).
-    destruct (run_actor_facts s s1 t (proj2 I) A N R1) as [A1 D1].
+    destruct (run_actor_facts s s1 t (si_ctl _ I) A N R1) as [A1 D1].
     apply (hosts_nothing_of_base s1 t (run_tree _ _ _ R1) A1 D1).
     destruct K1 as [Q1 _]. rewrite (tq_cur _ _ Q1), (tq_base _ _ Q1). unfold base. rewrite G.
     destruct (k_cur (tasks s t)); [discriminate|reflexivity].
@@ -1035,24 +1209,24 @@ Proof.
   destruct (k_ctl (tasks s t)) eqn:Ectl; try exact I.
   all: assert (N : k_ctl (tasks s0 t) <> CDone) by (rewrite <- Ec; discriminate).
   all: assert (A : alloc_t s0 t)
-         by (destruct (alloc_t_dec s0 t) as [H|H]; [exact H|exfalso; apply N; apply (c_unalloc _ (proj2 I) t H)]).
+         by (destruct (alloc_t_dec s0 t) as [H|H]; [exact H|exfalso; apply N; apply (c_unalloc _ (si_ctl _ I) t H)]).
   all: assert (R0 : Run [t] s0 s) by (apply run_n; [apply I|exact K0]).
   all: pose proof (run_tree _ _ _ R0) as T.
-  all: destruct (run_actor_facts s0 s t (proj2 I) A N R0) as [As Ds].
+  all: destruct (run_actor_facts s0 s t (si_ctl _ I) A N R0) as [As Ds].
   all: pose proof (po_Lt t) as Lt.
-  all: destruct (c_ok _ (proj2 I) t A) as [Knew [Kck [Ksc [_ _]]]].
+  all: destruct (c_ok _ (si_ctl _ I) t A) as [Knew [Kck [Ksc [_ _]]]].
   all: destruct K0 as [Q0 _].
   - (* CNew *)
     symmetry in Ec. destruct (Knew Ec) as [Ecur [Egrp Ehost]].
     set (s1 := upd_task s t (tk_started true)).
-    assert (K1 : nstep [t] s s1) by (apply ns_upd_task; [exact Lt|intros k; reflexivity]).
+    assert (K1 : nstep [t] s s1) by (apply ns_upd_task; [exact Lt|intros k; reflexivity|intros k; reflexivity]).
     assert (R1 : Run [t] s0 s1).
     { eapply run_trans; [exact R0|]. apply run_n; [exact T|exact K1]. }
     pose proof (run_tree _ _ _ R1) as T1. destruct K1 as [Q1 _].
     assert (Q01 : treq s0 s1) by (eapply treq_trans; eauto).
     destruct inc as [e|].
     + cbn [fst]. apply (sinv_finish s0 t s1 _ I A N R1). intros x. rewrite (tq_host _ _ Q01). apply Ehost.
-    + cbn [fst]. destruct (run_actor_facts s0 s1 t (proj2 I) A N R1) as [A1 D1].
+    + cbn [fst]. destruct (run_actor_facts s0 s1 t (si_ctl _ I) A N R1) as [A1 D1].
       destruct (k_group (tasks s1 t)) as [g|] eqn:G.
       * set (hs := k_hscope (tasks s1 t)).
         destruct (tr_kgroup _ T1 t g A1 G) as [Ag [Ah Ngh]]. fold hs in Ah, Ngh.
@@ -1069,7 +1243,7 @@ Proof.
   - (* CIdle *)
     cbn [fst]. destruct inc as [e|]; [|now apply (sinv_park s0 t s I A N)].
     apply (sinv_park s0 t _ I A N). eapply run_trans; [exact R0|]. apply run_n; [exact T|].
-    apply ns_upd_task; [exact Lt|intros k; reflexivity].
+    apply ns_upd_task; [exact Lt|intros k; reflexivity|intros k; reflexivity].
   - (* CYield *)
     destruct k as [| |c].
     + now apply (sinv_ret s0 t s _ I A N).
@@ -1098,7 +1272,7 @@ Proof.
       set (s3 := scope_cancel s2 (g_scope (groups s2 g)) false).
       assert (K3 : nstep [t] s s3).
       { eapply ns_trans; [exact K1|]. eapply ns_trans; [|apply ns_scope_cancel].
-        apply ns_upd_scope. intros k; reflexivity. }
+        apply ns_shield_true. }
       apply (sinv_wof s0 t s3); try assumption.
       * eapply run_trans; [exact R0|]. apply run_n; [exact T|exact K3].
       * intros w E. inversion E; subst w. apply (scope_ok_treq s s3); [apply K3|exact Ok].
@@ -1133,7 +1307,7 @@ Proof.
     assert (R1 : Run [t] s0 s1).
     { eapply run_trans; [exact R0|]. apply run_n; [exact T|apply ns_scope_cancel]. }
     pose proof (run_tree _ _ _ R1) as T1.
-    destruct (run_actor_facts s0 s1 t (proj2 I) A N R1) as [A1 D1].
+    destruct (run_actor_facts s0 s1 t (si_ctl _ I) A N R1) as [A1 D1].
     unfold new_scope. cbv zeta.
     pose proof (run_enter_fresh [t] s1 t None true T1 Lt A1 D1) as R2.
     destruct (fresh_enter_facts s1 t None true T1) as [_ [F2 [F3 _]]].
@@ -1165,16 +1339,17 @@ Qed.
 (* ---------------- environment / scheduler ops ---------------- *)
 Lemma sinv_env s s' : SInv s -> nstep [] s s' -> SInv s'.
 Proof.
-  intros [T C] K. assert (R : Run [] s s') by (apply run_n; assumption).
-  destruct R as [T' [Q _]]. split; [exact T'|]. apply (Ctl_step [] s s' C Q). intros t [].
+  intros [[T C] Dv] K. assert (R : Run [] s s') by (apply run_n; assumption).
+  destruct R as [[T' [Q _]] Dd]. split; [split; [exact T'|]|now apply Dd].
+  apply (Ctl_step [] s s' C Q). intros t [].
 Qed.
 
 Lemma sinv_task_done s t :
   SInv s -> In (HTaskDone t) (ready s) ->
   SInv (run_task_done (set_ready s (remove_first (HTaskDone t) (ready s))) t).
 Proof.
-  intros I Hin. destruct (c_td _ (proj2 I) t Hin) as [A Ed].
-  destruct (c_ok _ (proj2 I) t A) as [_ [_ [_ [Kd _]]]]. specialize (Kd Ed).
+  intros I Hin. destruct (c_td _ (si_ctl _ I) t Hin) as [A Ed].
+  destruct (c_ok _ (si_ctl _ I) t A) as [_ [_ [_ [Kd _]]]]. specialize (Kd Ed).
   set (s1 := set_ready s (remove_first (HTaskDone t) (ready s))).
   assert (K1 : nstep [] s s1) by apply ns_remove_first.
   rewrite run_task_done_eq. change (tasks s1 t) with (tasks s t).
@@ -1206,7 +1381,7 @@ Proof.
   { assert (E2 : k_ctl (tasks s2 t) = CDone) by (rewrite (tcore_ctl _ _ (B2 t (fun H => H))); exact Ed).
     unfold s3, td_struct. destruct (k_cur (tasks s2 t)); cbn [tasks upd_task set_tasks upd_group set_groups upd_scope set_scopes];
       unfold upd; rewrite Nat.eqb_refl; exact E2. }
-  apply (Ctl_step0 [t] s s' (proj2 I)).
+  apply (Ctl_step0 [t] s s' (si_ctl _ I)).
   - constructor.
     + intros x Hx. assert (x <> t) by (intros ->; apply Hx; now left).
       rewrite (B4 x (fun H => H)), (Et3 x H). apply (B2 x (fun H => H)).
@@ -1250,21 +1425,21 @@ Proof.
     eapply ns_trans; [apply ns_set_running|]. eapply ns_trans; [|apply ns_set_running].
     apply ns_kframe, kframe_deliver_top.
   - cbn [fst]. now apply sinv_task_done.
-  - cbn [fst]. apply (sinv_env s1 _ I1). apply ns_kframe, kframe_fut_complete.
+  - cbn [fst]. apply (sinv_env s1 _ I1). apply ns_fut_complete.
   - cbn [fst]. apply (sinv_env s1 _ I1).
     eapply ns_trans; [apply ns_set_running|]. eapply ns_trans; [|apply ns_set_running]. apply ns_scope_timeout.
 Qed.
 
 Lemma sinv_new_root s : SInv s -> SInv (fst (new_root s)).
 Proof.
-  intros [T C]. unfold new_root. cbn [fst]. fold (root_struct s).
+  intros [[T C] Dv]. unfold new_root. cbn [fst]. fold (root_struct s).
   set (t := ntask s). set (s1 := root_struct s).
   assert (Lt : In t [t]) by now left.
   assert (R1 : Run [t] s s1) by (apply run_new_root; [now apply run_refl|exact Lt]).
   assert (R2 : Run [t] s (set_running (park s1 t) None)).
   { eapply run_trans; [exact R1|]. apply run_n; [apply R1|].
     eapply ns_trans; [apply ns_park; exact Lt|apply ns_set_running]. }
-  destruct R2 as [T' [Q Rq]]. split; [exact T'|].
+  destruct R2 as [[T' [Q Rq]] Dd]. split; [split; [exact T'|]|now apply Dd].
   apply (Ctl_step [t] s _ C Q). intros t' [<-|[]].
   assert (Ec : k_ctl (tasks (set_running (park s1 t) None) t) = CIdle) by apply park_ctl.
   assert (Ed : k_tdran (tasks (set_running (park s1 t) None) t) = false).
@@ -1311,7 +1486,7 @@ Proof.
     + apply po_failat; assumption.
   - destruct o; try discriminate; try exact I.
     + now apply sinv_new_root.
-    + cbn [fst]. apply (sinv_env s _ I). apply ns_kframe, kframe_task_cancel.
+    + cbn [fst]. apply (sinv_env s _ I). apply ns_task_cancel.
     + cbn [fst]. apply (sinv_env s _ I).
       eapply ns_trans; [apply ns_set_running|]. eapply ns_trans; [|apply ns_set_running]. apply ns_scope_cancel.
     + now apply sinv_run_handle.
